@@ -48,6 +48,63 @@ def _sigma_key(sub):
     return None
 
 
+def _subst_locals(func, expr, depth=0):
+    '''The expression with every local name that has exactly ONE definition
+    replaced by that definition (recursively); `A if c else None` used as an
+    operand stands for A.'''
+    import copy
+    defs = {}
+    for node in walk_local(func.node):
+        if isinstance(node, ast.Assign) and len(node.targets) == 1 and \
+                isinstance(node.targets[0], ast.Name):
+            defs.setdefault(node.targets[0].id, []).append(node.value)
+    params = set(func.params)
+
+    class Sub(ast.NodeTransformer):
+        def __init__(self, level):
+            self.level = level
+
+        def visit_Name(self, node):
+            if isinstance(node.ctx, ast.Load) and node.id not in params and \
+                    len(defs.get(node.id, [])) == 1 and self.level < 4:
+                new = copy.deepcopy(defs[node.id][0])
+                return Sub(self.level + 1).visit(new)
+            return node
+    return Sub(depth).visit(copy.deepcopy(expr))
+
+
+def _is_nan_const(expr):
+    expr = _strip_wrappers(expr)
+    while isinstance(expr, ast.Call) and call_name(expr) in (
+            'float_', 'float64', 'float', 'array', 'float32') and expr.args:
+        expr = expr.args[0]
+    return txt(expr) in ('np.nan', 'nan', 'numpy.nan', 'math.nan',
+                         "float('nan')", 'np.NaN', 'np.NAN')
+
+
+def _check_nan_fallback(ctx, func, call, err):
+    '''error = <sigma formula> if <test> else NaN: the fall-back stands for
+    "this record prints no sigma" and must be selected by the presence of the
+    sigma KEY; selected by the truth value of the sigma VALUE, a printed
+    sigma of exactly 0 (zero score, single batch) becomes NaN.'''
+    n = 0
+    for node in ast.walk(err):
+        if not isinstance(node, ast.IfExp):
+            continue
+        if not (_is_nan_const(node.orelse) or _is_nan_const(node.body)):
+            continue
+        n += 1
+        reads_value = any(_sigma_key(sub) for sub in ast.walk(node.test))
+        ctx.decide('UNIT', func,
+                   f'{func.name}: NaN error selected by `{txt(node.test)[:50]}`',
+                   not reads_value, at=func.where(call),
+                   detail=None if not reads_value else
+                   'the test reads the sigma VALUE: sigma = 0.0 (printed for '
+                   'a zero score or a single batch) is turned into NaN '
+                   'instead of an error of 0')
+    return n
+
+
 def check_unit(ctx):
     mod = ctx.program.module(CONV)
     n = 0
@@ -56,7 +113,12 @@ def check_unit(ctx):
         for call in calls_in(func.node):
             if txt(call.func) != 'Dataset' or len(call.args) < 2:
                 continue
-            val, err = call.args[0], call.args[1]
+            val = _subst_locals(func, call.args[0])
+            err = _subst_locals(func, call.args[1])
+            for sub in list(ast.walk(val)) + list(ast.walk(err)):
+                ast.copy_location(sub, call)
+            _check_nan_fallback(ctx, func, call, err)
+            err = _strip_wrappers(err)
             branches = [err]
             if isinstance(err, ast.IfExp):
                 branches = [err.body, err.orelse]
@@ -91,6 +153,14 @@ def check_unit(ctx):
                                       'absolute error only where both sigma '
                                       'and sigma% are present')
                     continue
+                class _DropNone(ast.NodeTransformer):
+                    def visit_IfExp(self, node):
+                        self.generic_visit(node)
+                        if isinstance(node.orelse, ast.Constant) and \
+                                node.orelse.value is None:
+                            return node.body
+                        return node
+                inner = _DropNone().visit(inner)
                 num, den = Counter(), Counter()
                 _factors(inner, num, den)
                 sig = [k for k in num if any(
@@ -826,3 +896,154 @@ def check_end_flag_terminated(ctx):
                    'as an end flag, it closes an edition with a truncated '
                    'time (found on the shipped code: F22)')
     ctx.floor('END-FLAG-TERM', n, 1, 'positive returns of _is_end_flag')
+
+
+# ------------------------------------------------------------ ZIP-ORDER ---
+
+def _is_unordered(expr):
+    if isinstance(expr, (ast.Set, ast.SetComp)):
+        return True
+    if isinstance(expr, ast.Call) and isinstance(expr.func, ast.Name) and \
+            expr.func.id in ('set', 'frozenset'):
+        return True
+    return False
+
+
+def _unordered_origin(program, func, expr, depth=0):
+    """The set-building expression `expr` evaluates to (through local names
+    with a single meaning and, for a parameter, through the call sites of the
+    function in its module), or None."""
+    if _is_unordered(expr):
+        return expr
+    if depth > 3 or not isinstance(expr, ast.Name):
+        return None
+    defs = [n.value for n in walk_local(func.node)
+            if isinstance(n, ast.Assign) and any(
+                isinstance(t, ast.Name) and t.id == expr.id
+                for t in n.targets)]
+    for val in defs:
+        found = _unordered_origin(program, func, val, depth + 1)
+        if found is not None:
+            return found
+    if expr.id in func.params and not defs:
+        pos = func.params.index(expr.id)
+        for other in func.module.functions.values():
+            for call in calls_in(other.node):
+                if call_name(call) != func.name:
+                    continue
+                arg = None
+                if pos < len(call.args):
+                    arg = call.args[pos]
+                for kwd in call.keywords:
+                    if kwd.arg == expr.id:
+                        arg = kwd.value
+                if arg is not None:
+                    found = _unordered_origin(program, other, arg, depth + 1)
+                    if found is not None:
+                        return found
+    return None
+
+
+def check_zip_order(ctx):
+    """Names and numbers stored side by side in the HDF5 file (ISOTOPE /
+    CONCEN, LOCALNAME / LOCALVALUE ...) are paired by POSITION.  A zip whose
+    operand is a set (the reader keeps a set of isotope names for membership
+    tests) pairs them in hash order: concentrations are labelled with the
+    wrong isotope, differently from one process to the next."""
+    program = ctx.program
+    n = 0
+    for modname in (READER, PICKER):
+        mod = program.module(modname)
+        program.consulted.add(mod.relpath)
+        for func in mod.functions.values():
+            for call in calls_in(func.node):
+                if not (isinstance(call.func, ast.Name) and
+                        call.func.id == 'zip' and len(call.args) >= 2):
+                    continue
+                n += 1
+                bad = None
+                for arg in call.args:
+                    origin = _unordered_origin(program, func, arg)
+                    if origin is not None:
+                        bad = (arg, origin)
+                        break
+                ctx.decide('ZIP-ORDER', func,
+                           f'{func.name}: {txt(call)[:60]} pairs by position',
+                           bad is None, at=func.where(call),
+                           detail=None if bad is None else
+                           f'`{txt(bad[0])}` is a set ({txt(bad[1])[:50]}): '
+                           f'its iteration order is the hash order, not the '
+                           f'order of the file')
+    ctx.floor('ZIP-ORDER', n, 2, 'zip() calls in the Apollo3 reader and '
+                                 'picker')
+
+
+# ----------------------------------------------------------- PICK-CACHE ---
+
+def check_instance_cache(ctx):
+    """"identical whether read whole or picked": a Picker is bound to ONE
+    file; the name lists it remembers (isotopes, local names) belong to that
+    file.  A memo held in a mutable CLASS attribute and filled through `self`
+    is shared by every Picker of the process: a second file with the same
+    output / zone names is read with the name lists of the first one."""
+    program = ctx.program
+    klass = program.cls(f'{PICKER}:Picker')
+    program.consulted.add(klass.module.relpath)
+    class_level = {}
+    for stmt in klass.node.body:
+        if isinstance(stmt, ast.Assign) and isinstance(
+                stmt.targets[0], ast.Name):
+            val = stmt.value
+            mutable = isinstance(val, (ast.Dict, ast.List, ast.Set)) or (
+                isinstance(val, ast.Call) and call_name(val) in (
+                    'dict', 'list', 'set', 'OrderedDict', 'defaultdict',
+                    'deque', 'Counter', 'WeakValueDictionary'))
+            if mutable:
+                class_level[stmt.targets[0].id] = stmt
+    rebound = set()
+    init = klass.methods.get('__init__')
+    if init is not None:
+        for node in walk_local(init.node):
+            if isinstance(node, ast.Assign):
+                for tgt in node.targets:
+                    if isinstance(tgt, ast.Attribute) and dotted(
+                            tgt.value) == 'self':
+                        rebound.add(tgt.attr)
+    bad = 0
+    n = 0
+    for meth in klass.methods.values():
+        if meth.name == '__init__':
+            continue
+        n += 1
+        for node in walk_local(meth.node):
+            target = None
+            if isinstance(node, ast.Assign):
+                for tgt in node.targets:
+                    if isinstance(tgt, ast.Subscript):
+                        target = tgt.value
+            elif isinstance(node, ast.Call) and call_name(node) in (
+                    'append', 'add', 'update', 'setdefault', 'insert',
+                    'extend', 'popitem', 'pop', 'clear', 'move_to_end'):
+                target = receiver(node)
+            if target is None or not isinstance(target, ast.Attribute) or \
+                    dotted(target.value) not in ('self', 'cls',
+                                                 klass.name) or \
+                    target.attr not in class_level or \
+                    (target.attr in rebound and
+                     dotted(target.value) == 'self'):
+                continue
+            bad += 1
+            ctx.violated('PICK-CACHE', meth,
+                         f'{meth.name}: writes the class-level container '
+                         f'`{target.attr}` ({txt(node)[:40]})',
+                         at=meth.where(node),
+                         detail='one container for every Picker of the '
+                                'process: what was remembered for another '
+                                'file is served for this one')
+    ctx.floor('PICK-CACHE', n, 5, 'methods of Picker')
+    if not bad:
+        ctx.holds('PICK-CACHE', klass.node.name,
+                  f'{n} methods of Picker: no write into a mutable '
+                  f'class-level container '
+                  f'({sorted(class_level) or "none declared"})',
+                  nontrivial=True)
